@@ -202,7 +202,7 @@ PROPS = {
         exhaustive_quick=True, exhaustive_thorough=True,
         trusted=["hand model of helpers.rs tied by exact-string correspondence on all 40 sizes"]),
     "C12": dict(
-        module="FastQr.Props.C12", more_modules=["FastQr.Props.C12Doc", "FastQr.Props.C12Values", "FastQr.Props.C12Custom"], level="proof",
+        module="FastQr.Props.C12", more_modules=["FastQr.Props.C12Doc", "FastQr.Props.C12Values", "FastQr.Props.C12Custom", "FastQr.Props.C12Built"], level="proof",
         key=lambda t: ("svg", t[4], tuple(sorted(set(x.split(":")[0] + (":" + x.split(":")[1] if x.startswith(("s:", "sc:", "is:")) else "") for x in t[6].split(";")))), hash(t[6]) % 7) if len(t) > 7 else None,
         rule="cases: (`svgcmd`: one layer drawn by a CUSTOM command that writes its arguments into the sub-path; expected = one sub-path per dark module in row-major order at (column+margin, row+margin) carrying the symbol's own module byte) (image references: a fixed list and random compositions of ASCII, each XML-special character, entity look-alikes and 2/3/4-byte UTF-8 characters) real SvgBuilder::to_str on real symbols (versions 1..8 mostly, every 10th any version) under generated setter "
              "histories: margin 0..n, 0..3 shape()/shape_color() calls over the 6 shapes, colours as 3/4-byte arrays (alpha "
